@@ -17,6 +17,10 @@ def run(tree, rep, tier):
         if m is None:
             raise AnalysisError(f"anchor module {mn} vanished")
         entries += [f.fq for f in m.funcs.values() if not f.name.startswith("_")]
+        if mn == "circuit_lookup":
+            # the accessors' record classes are handed to callers: their public methods are boundary too
+            for c in prog._all_classes(m):
+                entries += [f.fq for f in c.methods.values() if not f.name.startswith("_")]
     A3_A5_shared(rep, flow, entries)
     # linear_index / graph_draw take index lists and drawing options, not the objects the property names; effects
     # that reach a protected parameter THROUGH them are still propagated by the summaries
